@@ -77,6 +77,10 @@ example : (toMatrix 3 exA).det = -3 := by
   rw [h2] at h
   exact (Option.some.inj h).symm
 
+/-- the `lu` + `lu_det` route on the same matrix -/
+example : M.luDet (⟨exF, 3, 3⟩ : Mat ℚ) (exP.map Int.ofNat) = some (toMatrix 3 exA).det :=
+  matrix_lu_det_eq_det abs_rat ⟨exA, 3, 3⟩ ⟨exF, 3, 3⟩ exP (by decide) rfl ex_matrix_lu
+
 end det
 
 section chol
@@ -195,6 +199,22 @@ example : LA.cholesky ([1, 2, 2, 1] : List ℝ) = none :=
       have hj' : j = 0 ∨ j = 1 := by omega
       rcases hi' with rfl | rfl <;> rcases hj' with rfl | rfl <;> simp [rd])
     ex_not_posDef
+
+/-- `posDef_of_cholFactor` on the factor `[[2,0],[1,1]]` of `[[4,2],[2,2]]` (all three hypotheses checked) -/
+example : PosDefFlat 2 ([4, 2, 2, 2] : List ℚ) := by
+  apply posDef_of_cholFactor 2 [4, 2, 2, 2] ([2, 0, 1, 1] : List ℚ)
+  · intro r c hr hc hrc
+    have : r = 0 ∧ c = 1 := by omega
+    obtain ⟨rfl, rfl⟩ := this
+    simp [rd]
+  · intro r hr
+    have : r = 0 ∨ r = 1 := by omega
+    rcases this with rfl | rfl <;> norm_num [rd]
+  · intro i j hi hj
+    have hi' : i = 0 ∨ i = 1 := by omega
+    have hj' : j = 0 ∨ j = 1 := by omega
+    rcases hi' with rfl | rfl <;> rcases hj' with rfl | rfl <;>
+      norm_num [Finset.sum_range_succ, rd]
 
 end examples
 end Cv.C11Review
